@@ -1,10 +1,12 @@
 P = {
     "gens": ["C18spray", "C18sprayconc"],
-    "theorems": ["C18_budget", "C18_accounting", "C18_giveback", "C18_reachable", "C18_giveback_concurrent",
+    "theorems": ["C18_budget", "C18_life", "C18_life_single_create", "C18_accounting", "C18_sent_list", "C18_giveback", "C18_reachable", "C18_giveback_concurrent",
                  "C18_giveback_single", "C18_binary", "C18_binary_single_copy", "C18_binary_conservation",
                  "C18_gc_overlap_serial", "C18_gc_overlap_transparent"],
-    "rule": "histories of {create (submit / receive with k copies, PreviousNodeBlock), sender up (link failing or not) / down, "
-            "link starts / stops failing, retry tick, metadata GC} on a real routing.Core (spray, binary_spray) with scripted mock "
+    "rule": "histories of {create (submit / receive with k copies, PreviousNodeBlock; also a bundle of this node received from a "
+            "neighbour), the same bundle received again (a duplicate while the store knows it / the bundle coming back after it was "
+            "delivered and left the store: a new life with freshly initialised metadata, judged against its own budget), sender up "
+            "(link failing or not) / down, link starts / stops failing, retry tick, metadata GC} on a real routing.Core (spray, binary_spray) with scripted mock "
             "senders, 1..3 bundles per history replayed through independent per-bundle instances of the extracted model "
             "(observed choice of senders validated by the model's guard); hand-made boundary histories (the three repaired "
             "defects, L = 1..8 with six relays), concurrent-failure stress (six failing relays, repeated ticks; 'sync' histories "
@@ -19,10 +21,14 @@ P = {
             "<= L-1, remaining + handed over = L, binary announced + kept = held, a pending bundle keeps its metadata), plus: exactly "
             "the leftovers are gone from the metadata map; distinct = distinct case bodies (history + observations)",
     "assumptions": [
-        "a bundle is created once (duplicates of a stored bundle never reach the algorithm: Core.receive drops them; "
-        "re-submitting the same bundle re-initialises its budget and is outside the model)",
-        "received bundles do not carry their own destination node in the PreviousNodeBlock (hist_wf); needed for the "
-        "binary-spray and per-pass theorems, not for C18_budget / C18_accounting",
+        "the budget is kept per life of a bundle on the node (from entering the store to leaving it): a duplicate of a stored "
+        "bundle never reaches the algorithm (Core.receive drops it - modelled and exercised), but a bundle that left the store "
+        "and is received again gets freshly initialised metadata, so over several lives more than L-1 copies can be handed out "
+        "(C18_budget_across_lives; the node keeps no memory of delivered bundles); re-submitting the same bundle through "
+        "SendBundle is outside the model",
+        "received bundles do not carry their own destination node in the PreviousNodeBlock (hist_wf); since fix 772c5cf "
+        "(previous node of an own bundle recorded in the sent list) also needed for C18_budget / C18_accounting: a failed "
+        "direct delivery to a recorded previous node gives back a copy that was never taken (C18_budget_needs_wf)",
         "forwarding passes of one bundle do not overlap (the cron-fired checkPendingBundles racing the handler goroutine is "
         "not modelled, DESIGN.md 1.2); within a pass the concurrent ReportFailure calls are modelled (C18_giveback_concurrent); "
         "the garbage-collection cron job overlapping a pass / a submit is modelled as atomic (it holds the write lock throughout: "
@@ -41,7 +47,7 @@ P = {
     "level_text": "Invariant proofs over the Gallina model for every budget L, every history and every oracle "
                   "(remaining + handed-over = L; structural invariant of the metadata; serialisability of two concurrent "
                   "failure reports under the lock); trace inclusion implementation <= model checked differentially on a real Core.",
-    "level_note": "Proof is about the model of the repaired code (three fix commits); the tie to Go is the differential check "
+    "level_note": "Proof is about the model of the repaired code (fix commits 455be3c, 1cb3f8c, 4c692e7, 2edd1c0, 772c5cf); the tie to Go is the differential check "
                   "(bounded by generator quality). Go runtime, badger store, cboring are modelled not verified.",
     "timeout_quick": 600,
     "timeout_thorough": 6000,
